@@ -249,6 +249,43 @@ def run(ctx):
                                 ctx.violation("row-from-the-parts-of-its-parts:%s:ratio=%s" % (r["unit"].replace(" ", "_"), sig3(ratio3)), {"row": r["unit"], "leaves": leaves, "through": via, "composed": repr(a1), "ratio": ratio3, "limit": row_limit}, replay={"row": r["unit"]})
                 except Exception as e:
                     ctx.violation("dynamic-expanded-raised:%s" % r["unit"].replace(" ", "_"), {"row": r["unit"], "error": repr(e)[:200]}, replay={"row": r["unit"]})
+                # ... and written with reciprocals: x * (1 / y) instead of x / y - the divisor is an operand of its own,
+                # carrying the unit at exponent -1 when it meets another unit of the same quantity type
+                try:
+                    acc4 = None
+                    for pre, s_, e in sorted(r["parts"], key=lambda t: -t[2]):
+                        for _ in range(abs(e)):
+                            leaf = Scalar(pre, s_) if e > 0 else 1.0 / Scalar(pre, s_)
+                            acc4 = leaf if acc4 is None else acc4 * leaf
+                    ctx.ev()
+                    ctx.count("rows composed with reciprocal operands")
+                    got4 = dims.basemag(T, acc4.GetValue(), dims.items_of(acc4.GetQuantity())) * Fr(ref["k"])
+                    if not abs(float(got4 / got) - 1) <= 1e-9:
+                        ctx.violation("two-compositions-of-the-same-parts-differ", {"row": r["unit"], "by_multiplication": repr(acc), "with_reciprocal_operands": repr(acc4), "ratio": float(got4 / got)}, replay={"row": r["unit"]})
+                    # a reciprocal sum: 1/x + 1/y of two components of one quantity type, from parts and from the named reciprocal rows
+                except Exception as e:
+                    ctx.violation("dynamic-reciprocals-raised:%s" % r["unit"].replace(" ", "_"), {"row": r["unit"], "error": repr(e)[:200]}, replay={"row": r["unit"]})
+                # a row that is one component at an exponent ('1/ft', 'ft2', '1/psi'): the (unit, exponent) overload of the
+                # conversion - Convert(qt, [(u, e)], [(base, e)], x) and GetValue([(base, e)]) of the derived amount - tells the
+                # same factor as the product of the component's factors
+                if len(r["parts"]) == 1 and r["parts"][0][0] == 1.0:
+                    _pre, atom, e = r["parts"][0]
+                    aqt = infos[atom].quantity_type
+                    abase = db.GetBaseUnit(aqt)
+                    for route, fn in (
+                        ("UnitDatabase.Convert(qt,[(u,e)],[(base,e)],x)", lambda: db.Convert(aqt, [(atom, e)], [(abase, e)], 2.0)),
+                        ("derived Scalar.GetValue([(base,e)])", lambda: ((Scalar(1.0, atom) ** abs(e)) * 2.0 if e > 0 else 2.0 / (Scalar(1.0, atom) ** abs(e))).GetValue([(abase, e)])),
+                    ):  # fmt: skip
+                        ctx.ev()
+                        ctx.count("single-component rows read through the (unit, exponent) overload")
+                        try:
+                            gv = float(fn())
+                        except Exception as ex:
+                            ctx.violation("route-raised:%s" % route, {"row": r["unit"], "route": route, "error": repr(ex)[:200]}, replay={"row": r["unit"]})
+                            continue
+                        wv = 2.0 * r["composed"]
+                        if not abs(gv - wv) <= 1e-11 * abs(wv):
+                            ctx.violation("row-factor-differs-by-route:%s" % route, {"row": r["unit"], "route": route, "got": gv, "product_of_component_factors": wv}, replay={"row": r["unit"]})
                 # the row's factor as every public conversion route tells it (floats, lists, tuples, arrays, value objects)
                 for route, got_f in factor_routes(db, qt, r["unit"], base):
                     ctx.ev()
